@@ -28,10 +28,10 @@ PROP = {
                 "environment values for the model. Non-trivial = the model reached a non-default branch (length form 16/64, empty payload, no "
                 "SetPayload, stale pooled length, partial writes, would-block, in-flight, waiters, cancelled, above max, ...)",
         "trusted_base": LEAN_TB + [
-            "Model/WsEncode.lean, Model/WsStream.lean are hand-written models of frame.go (SetPayload/setPayloadLength/MaskPayload/...), util.go Mask, "
+            "Model/WsEncode.lean, Model/WsWritePath.lean are hand-written models of frame.go (SetPayload/setPayloadLength/MaskPayload/...), util.go Mask, "
             "util/bytes.go ExtendSlice, frame_codec.go Encode, stream.go (Write/WriteFrame/AsyncWrite/AsyncWriteFrame/prepareWrite/Flush/AsyncFlush/"
             "Close/prepareClose) and codec.go WriteNext/AsyncWriteNext at frame granularity; tied to the source only by the correspondence check",
-            "harness/memstream.go (scripted transport: partial-write plan, deferral) is modelled in Model/WsStream.lean (accept/writeAll/pumpWrite)",
+            "harness/memstream.go (scripted transport: partial-write plan, deferral) is modelled in Model/WsWritePath.lean (accept/writeAll/pumpWrite)",
         ],
         "assumptions": [
             "one write in flight: a blocking Write/WriteFrame/Flush/Close is not issued while an asynchronous flush is in flight (that overlap is C17); "
